@@ -49,4 +49,11 @@ def main():
         R.notes.append("termination part (props/c04_live.py) not present in this tree")
     if c04_live is not None:
         c04_live.run(R)
+    # verifyMsgLimits clause of honest_never_unjust, built separately: props/c04_limits.py
+    try:
+        import c04_limits
+    except ImportError:
+        c04_limits = None
+    if c04_limits is not None:
+        c04_limits.run(R)
     R.finish()
